@@ -141,8 +141,9 @@ class Check:
 
     def fail(self, alg, case, fmt, outtype, kind, observed, expected, extra=None):
         """the implementation fails the property on this case (already judged)"""
-        if alg == "bin_completion" and fmt in ("dict_str", "dict_int", "names_valueof"):
-            kind = "names-not-values:" + kind
+        if alg == "bin_completion" and fmt in ("dict_str", "dict_int", "names_valueof") and \
+                kind not in ("input-modified", "history-dependent", "not-repeatable", "oversize-accepted"):
+            kind = "names-not-values:" + kind       # KF4 explains wrong / failing answers on named items, nothing else
         k = self.match_known(alg, case, fmt, kind)
         if k is not None:
             self.known_hits.setdefault(k["id"], {"finding": k, "count": 0, "first": {"case": case, "fmt": fmt}})
